@@ -28,8 +28,8 @@ def run_property(prop, tier, root, seed=0, write_evidence=True, quiet=False, ove
             selfval.run(ctx, prop)
             st = ctx.selftest or {}
             if not quiet:
-                print('   self-validation: %d variants, %d detected, skipped=%s, missed=%s'
-                      % (st.get('variants', 0), st.get('detected', 0), st.get('skipped', []), st.get('missed')))
+                print('   self-validation: %d breaking variants, %d detected, skipped=%s, missed=%s; neutral variants silent: %s of %s'
+                      % (st.get('variants', 0), st.get('detected', 0), st.get('skipped', []), st.get('missed'), st.get('neutral_silent'), st.get('neutral_variants')))
     except AnalysisError as e:
         ctx.error(e.rule, e.construct, e.why)
     except Exception as e:
